@@ -39,6 +39,7 @@ ASSUMPTIONS = ["digits in numeric positions are ASCII; ids, counts and multiplic
                "generated names and metadata contain no line-boundary character, no leading/trailing whitespace and "
                "no lone surrogate (the quantifier's single-line text)"]
 TIMEOUT_S = 60.0
+COVER_FILES = ["instances/preflibinstance/categorical.py", "instances/preflibinstance/instance.py"]
 CHUNK = 25
 
 WORK = os.path.join(oracle.VERIF, ".work")
@@ -157,6 +158,107 @@ def _parse_canon(d, name, s, mode, **kw):
     return canon(_parse(d, name, s, mode, **kw))
 
 
+def _rt_tail(d, out, text1, mode, mw=None):
+    """checks (b)-(d) on a written file: parse it with a fresh object, write that again, parse the model's text"""
+    out["text1"] = T(text1)
+    os.makedirs(os.path.join(d, "in"))
+    try:
+        j = _parse(os.path.join(d, "in"), "f.cat", text1, mode)
+    except Exception as e:  # noqa: the property says this cannot happen; reported with its class
+        out["parsed1"] = [1, type(e).__name__ + ": " + str(e)[:200]]
+        return out
+    out["parsed1"] = [0, canon(j)]
+    os.makedirs(os.path.join(d, "out"))
+    path2 = os.path.join(d, "out", "f.cat")
+    j.write(path2)
+    out["text2"] = T(_read(path2))
+    if mw is not None:
+        os.makedirs(os.path.join(d, "mw"))
+        try:
+            out["parsed_mw"] = [0, canon(_parse(os.path.join(d, "mw"), "f.cat", proto.untext(mw), mode))]
+        except Exception as e:  # noqa
+            out["parsed_mw"] = [1, type(e).__name__ + ": " + str(e)[:200]]
+    return out
+
+
+def _tup(b):
+    return tuple(tuple(c) for c in b)
+
+
+def apply_history(p, muts, add):
+    """the payload after: multiplicity[b] += k, num_voters += k for (index, k) in muts; then optionally a new ballot"""
+    q = [list(x) if isinstance(x, list) else x for x in p]
+    q[8] = [[b, m] for b, m in p[8]]
+    for idx, k in muts:
+        q[8][idx][1] += k
+        q[2] += k
+    if add:
+        b, m = add
+        q[7] = q[7] + [b]
+        q[8] = q[8] + [[b, m]]
+        q[2] += m
+        q[4] += 1
+    return q
+
+
+def _impl_hist(d, pl):
+    """write -> mutate the SAME object -> write again (same path): the second file is judged like a first one"""
+    p, muts, add, mode = pl
+    inst = build(p)
+    path = os.path.join(d, "f.cat")
+    inst.write(path)
+    out = {"write": [0], "textA": T(_read(path))}
+    keys = [_tup(b) for b, _ in p[8]]
+    for idx, k in muts:
+        inst.multiplicity[keys[idx]] += k
+        inst.num_voters += k
+    if add:
+        b, m = add
+        inst.preferences.append(_tup(b))
+        inst.multiplicity[_tup(b)] = m
+        inst.num_voters += m
+        inst.num_unique_preferences += 1
+    inst.write(path)
+    return _rt_tail(d, out, _read(path), mode)
+
+
+def robust(p):
+    """what must hold of an object that parsed the same file once or several times"""
+    seen = []
+    for b in p[7]:
+        if b not in seen:
+            seen.append(b)
+    return [p[0], p[1], p[2], sorted(p[3]), p[4], p[5], sorted(p[6]), sorted(seen), sorted(p[8])]
+
+
+def _impl_cycle(d, pl):
+    """one object: parse(A) -> write(B) -> parse(B) -> parse(B); A is the file written from the payload"""
+    from preflibtools.instances import CategoricalInstance
+    p, mode = pl
+    path_a = os.path.join(d, "f.cat")
+    build(p).write(path_a)
+    text_a = _read(path_a)
+    obj = CategoricalInstance()
+
+    def parse_into(path, text):
+        if mode == 0:
+            obj.parse_file(path)
+        else:
+            obj.parse_str(text, "cat", file_name="f.cat")
+    parse_into(path_a, text_a)
+    out = {"A": T(text_a), "S0": canon(obj)}
+    os.makedirs(os.path.join(d, "b"))
+    path_b = os.path.join(d, "b", "f.cat")
+    obj.write(path_b)
+    text_b = _read(path_b)
+    out["B"] = T(text_b)
+    parse_into(path_b, text_b)
+    out["S1"] = canon(obj)
+    parse_into(path_b, text_b)
+    out["S2"] = canon(obj)
+    return out
+
+
 def impl(c):
     op, pl = c["op"], c["payload"]
     if op == "c08.tokenize":
@@ -168,6 +270,10 @@ def impl(c):
             ac, ho, mode, content_ = pl
             return guarded(_parse_canon, d, "p.cat", proto.untext(content_), mode,
                            autocorrect=bool(ac), header_only=bool(ho))
+        if op == "c08.cycle":
+            return _impl_cycle(d, pl)
+        if op == "c08.hist":
+            return _impl_hist(d, pl)
         # c08.rt
         p, mode = pl
         inst = build(p)
@@ -175,27 +281,7 @@ def impl(c):
         r = guarded(inst.write, path)
         if r[0] != 0:
             return {"write": r}
-        text1 = _read(path)
-        out = {"write": [0], "text1": T(text1)}
-        os.makedirs(os.path.join(d, "in"))
-        try:
-            j = _parse(os.path.join(d, "in"), "f.cat", text1, mode)
-        except Exception as e:  # noqa: the property says this cannot happen; reported with its class
-            out["parsed1"] = [1, type(e).__name__ + ": " + str(e)[:200]]
-            return out
-        out["parsed1"] = [0, canon(j)]
-        os.makedirs(os.path.join(d, "out"))
-        path2 = os.path.join(d, "out", "f.cat")
-        j.write(path2)
-        out["text2"] = T(_read(path2))
-        mw = c["tags"].get("mw")
-        if mw is not None:
-            os.makedirs(os.path.join(d, "mw"))
-            try:
-                out["parsed_mw"] = [0, canon(_parse(os.path.join(d, "mw"), "f.cat", proto.untext(mw), mode))]
-            except Exception as e:  # noqa
-                out["parsed_mw"] = [1, type(e).__name__ + ": " + str(e)[:200]]
-        return out
+        return _rt_tail(d, {"write": [0]}, _read(path), mode, c["tags"].get("mw"))
     finally:
         shutil.rmtree(d, ignore_errors=True)
 
@@ -210,11 +296,24 @@ def oracle_requests(c, r):
     if op == "c08.parse":
         ac, ho, mode, content_ = pl
         return [("c08.parse", [ac, ho, mode, T("p.cat"), T("cat"), content_])]
-    p, mode = pl
-    p = normalise_fname(p)
+    if op == "c08.cycle":
+        p, mode = pl
+        p = normalise_fname(p)
+        return [("c08.write", p), ("c08.sorted_view", p)]
+    if op == "c08.hist":
+        p0, muts, add, mode = pl
+        p0 = normalise_fname(p0)
+        p = apply_history(p0, muts, add)
+    else:
+        p, mode = pl
+        p = normalise_fname(p)
     reqs = [("c08.write", p), ("c08.sorted_view", p)]
     if isinstance(r, dict) and "text1" in r:
         reqs.append(("c08.parse", [0, 0, mode, T("f.cat"), T("cat"), r["text1"]]))
+    else:
+        reqs.append(("c08.tokenize", []))
+    if op == "c08.hist":
+        reqs.append(("c08.write", p0))
     return reqs
 
 
@@ -255,9 +354,34 @@ def judge(c, r, mres):
         if a[7] != b[7]:
             return "ballot list order differs: %r vs %r" % (a[7], b[7])
         return None
-    # c08.rt
-    p, mode = pl
-    p = normalise_fname(p)
+    if op == "c08.cycle":
+        p, mode = pl
+        p = normalise_fname(p)
+        mw, sv = mres[0], mres[1]
+        if mw[0] != 0:
+            return {"kind": "broken-correspondence", "reason": "cycle case outside the writer's domain"}
+        if r["A"] != mw[1]:
+            return "(e) written file differs from the model's writer: %s vs %s" % (_show(r["A"]), _show(mw[1]))
+        if content(r["S0"]) != content(p):
+            return "(b) parsed object differs: " + _first_diff(content(r["S0"]), content(p))
+        if r["B"] != r["A"]:
+            return "(c) the object that parsed the file writes a different file: %s vs %s" % (_show(r["B"]), _show(r["A"]))
+        for key in ("S1", "S2"):
+            if robust(r[key]) != robust(p):
+                return "history: after parsing its own output again (%s) the object holds different content: %s" % (
+                    key, _first_diff(robust(r[key]), robust(p)))
+        return None
+    if op == "c08.hist":
+        p0, muts, add, mode = pl
+        p0 = normalise_fname(p0)
+        p = apply_history(p0, muts, add)
+        mwa = mres[3]
+        if mwa[0] != 0 or mwa[1] != r["textA"]:
+            return "(e) first written file differs from the model's writer: %s vs %s" % (_show(r["textA"]), _show(mwa[1] if mwa[0] == 0 else []))
+    else:
+        # c08.rt
+        p, mode = pl
+        p = normalise_fname(p)
     mw, sv = mres[0], mres[1]
     if r["write"][0] != 0:
         if mw[0] == 1 and r["write"][1] == proto.E_OTHER:
@@ -271,7 +395,8 @@ def judge(c, r, mres):
     mp = mres[2]
     # (e) byte for byte
     if mw[1] != r["text1"]:
-        return "(e) written file differs from the model's writer: %s vs %s" % (_show(r["text1"]), _show(mw[1]))
+        return "(e) %swritten file differs from the model's writer: %s vs %s" % (
+            "after the object was changed, the re-" if op == "c08.hist" else "", _show(r["text1"]), _show(mw[1]))
     # (a) independent reader
     if mp[0] != 0:
         return "(a) the model's reader rejects the written file (error %r): %s" % (mp[1], _show(r["text1"]))
@@ -314,6 +439,8 @@ def nontrivial(c, r, m):
     if op == "c08.parse":
         return bool(c["tags"].get("dirty"))
     prefs = pl[0][7]
+    if op == "c08.hist":
+        return len(prefs) >= 2 and bool(pl[1])
     return len(prefs) >= 2 and any(len(cat) != 1 for b in prefs for cat in b)
 
 
@@ -325,6 +452,10 @@ def stats(c, r, m):
         res = "ok" if r[0] == 0 else "error%d" % r[1]
         return ["parse ac=%d ho=%d %s %s" % (pl[0], pl[1], "file" if pl[2] == 0 else "str", res)]
     prefs = pl[0][7]
+    if op == "c08.cycle":
+        return ["cycle %s ballots=%s" % ("file" if pl[1] == 0 else "str", len(prefs) if len(prefs) < 4 else ">=4")]
+    if op == "c08.hist":
+        return ["hist muts=%d add=%d" % (len(pl[1]), 1 if pl[2] else 0)]
     lab = ["rt ballots=%s cats=%d" % (len(prefs) if len(prefs) < 4 else ">=4", pl[0][5])]
     kinds = set()
     for b in prefs:
@@ -335,6 +466,11 @@ def stats(c, r, m):
             kinds.add("consecutive empties")
         if b and all(not cat for cat in b):
             kinds.add("all empty")
+        if any(list(cat) != sorted(cat) for cat in b):
+            kinds.add("category not in increasing order")
+    if any(b1 != b2 and [sorted(x) for x in b1] == [sorted(x) for x in b2]
+           for n, b1 in enumerate(prefs) for b2 in prefs[n + 1:]):
+        kinds.add("ballots differing only inside a category")
     ms = [mu for _, mu in pl[0][8]]
     if len(ms) != len(set(ms)):
         kinds.add("multiplicity tie")
@@ -351,7 +487,11 @@ def describe(c):
         return {"autocorrect": pl[0], "header_only": pl[1], "entry": "parse_file" if pl[2] == 0 else "parse_str",
                 "content": proto.untext(pl[3])}
     p = pl[0]
-    return {"entry": "parse_file" if pl[1] == 0 else "parse_str",
+    if op == "c08.hist":
+        dd = describe({"op": "c08.rt", "payload": [p, pl[3]], "tags": {}})
+        dd["then"] = {"multiplicity[ballot #i] += k (and num_voters += k)": pl[1], "append ballot": pl[2]}
+        return dd
+    return {"entry": "parse_file" if pl[1] == 0 else "parse_str", "kind": op,
             "metadata": {f: proto.untext(v) for f, v in zip(FIELDS, p[0])},
             "num_alternatives": p[1], "num_voters": p[2], "num_unique_preferences": p[4], "num_categories": p[5],
             "alternatives_name": {a: proto.untext(n) for a, n in p[3]},
@@ -370,6 +510,13 @@ def shrink(c):
         lines = proto.untext(pl[3]).split("\n")
         for k in range(len(lines)):
             yield dict(c, payload=[pl[0], pl[1], pl[2], T("\n".join(lines[:k] + lines[k + 1:]))])
+        return
+    if op == "c08.hist":
+        p, muts, add, mode = pl
+        for k in range(len(muts)):
+            yield dict(c, payload=[p, muts[:k] + muts[k + 1:], add, mode], tags=tags)
+        if add:
+            yield dict(c, payload=[p, muts, [], mode], tags=tags)
         return
     p, mode = pl
     for k in range(len(p[7])):           # drop a ballot
@@ -483,6 +630,15 @@ def rand_instance(rng):
             ballots.append(b)
         if len(ballots) >= nb:
             break
+    if rng.random() < 0.3:
+        for b in list(ballots):
+            big_cats = [j for j, cat in enumerate(b) if len(cat) >= 2]
+            if big_cats and rng.random() < 0.5:
+                j = rng.choice(big_cats)
+                tw = [list(cat) for cat in b]
+                tw[j] = tw[j][::-1] if rng.random() < 0.5 else rng.sample(tw[j], len(tw[j]))
+                if tw not in ballots:
+                    ballots.append(tw)
     mstyle = rng.random()
     if mstyle < 0.35:
         mults = [rng.choice([1, 2, 3]) for _ in ballots]                 # many ties
@@ -512,6 +668,13 @@ def corpus_like():
     out.append(mk_payload(k3, 3, [(1, ""), (2, "B"), (3, "")], [(1, ""), (2, "two"), (3, "")],
                           {"file_name": "f.cat"}))
     out.append(mk_payload([([[]], 1)], 1, [(1, "")], [], {}))
+    # alternatives inside a category in non-increasing order; ballots that differ only inside a category
+    out.append(mk_payload([([[3, 1], [2], [6, 5, 4]], 4)], 3, [(1, "a"), (2, "b"), (3, "c")],
+                          [(k, "A%d" % k) for k in range(1, 7)], {}))
+    out.append(mk_payload([([[2, 1], [3]], 7), ([[1, 2], [3]], 2)], 2, [(1, "a"), (2, "b")],
+                          [(1, "x"), (2, "y"), (3, "z")], {}))
+    out.append(mk_payload([([[1, 2], [3]], 2), ([[2, 1], [3]], 2), ([[3], [1, 2]], 2), ([[3], [2, 1]], 2)], 2,
+                          [(1, "a"), (2, "b")], [(1, "x"), (2, "y"), (3, "z")], {}))
     out.append(mk_payload([([[7]], 3), ([[]], 3), ([[7, 8]], 3)], 1, [(1, "only")], [(7, "a"), (8, "")], {}))
     out.append(mk_payload([([[], []], 1), ([[1], []], 1), ([[], [1]], 1)], 2, [(1, "yes"), (2, "no")], [(1, "x")],
                           {"title": "", "description": "d"}))
@@ -584,7 +747,8 @@ def dirty_content(rng):
     if rng.random() < 0.25:
         lines = ["  " + l + " \t" if rng.random() < 0.5 else l for l in lines]
     ballots = ["1: 1, 2", "2: {1, 2}, {}", "1:1,2", "3: {}, {}", "1: {1,2},{}", "4: 2, 1", "1: 1, 2", "10: {}, 3",
-               "2: {1 , 2} , { }", "1:", "1: {,}", "007: 1"]
+               "2: {1 , 2} , { }", "1:", "1: {,}", "007: 1", "1\t: 1\t,2", "2 :{1 ,\t2}, {\t}", "3:\u00a01, 2",
+               "\u30001 : 2,{ } ", "1: {1, 2}, 3}", "1: {{1, 2}, 3", "1: 1;2", "2: {1 2}, 3"]
     body = [rng.choice(ballots) for _ in range(rng.randint(0, 7))]
     r = rng.random()
     if r < 0.08:
@@ -610,13 +774,18 @@ def generate(tier, seed):
             # all of them in one file: distinct multiplicities, then heavy ties
             insts.append((simple_instance([(b, len(allb) - n) for n, b in enumerate(allb)], k, alts), {"exh": 1}))
             insts.append((simple_instance([(b, 1 + (n % 2)) for n, b in enumerate(allb)], k, alts), {"exh": 1}))
+    for k in (1, 2, 3):
+        for m in (2, 3):
+            for perm in itertools.permutations(range(1, m + 1)):
+                if list(perm) == sorted(perm):
+                    continue
+                for b in placements(list(perm), k):
+                    if any(cat != sorted(cat) for cat in b):
+                        insts.append((simple_instance([(b, 2)], k, sorted(perm)), {"exh": 1}))
     if not quick:
         for k in (1, 2, 3):
-            for m in (2, 3):
-                for perm in itertools.permutations(range(1, m + 1)):
-                    for b in placements(list(perm), k):
-                        insts.append((simple_instance([(b, 2)], k, sorted(perm)), {"exh": 1}))
-            allb = list(placements([1, 2], k))
+            allb = list(placements([1, 2], k)) + list(placements([2, 1], k))
+            allb = [b for n, b in enumerate(allb) if b not in allb[:n]]
             for b1 in allb:
                 for b2 in allb:
                     if b1 != b2:
@@ -624,6 +793,8 @@ def generate(tier, seed):
                             insts.append((simple_instance([(b1, m1), (b2, m2)], k, [1, 2]), {"exh": 1}))
     for p in corpus_like():
         insts.append((p, {"hand": 1}))
+    # outside the quantifier, accepted by the code: a ballot with zero categories ("1: " is written and read back)
+    insts.append((mk_payload([([], 3)], 0, [], [(1, "a")], {}), {"hand": 1}))
     # --- random ---
     for _ in range(700 if quick else 12000):
         insts.append((rand_instance(rng), {}))
@@ -635,6 +806,39 @@ def generate(tier, seed):
         if isinstance(mw, list) and mw and mw[0] == 0:
             tags["mw"] = mw[1]
         out.append(case("c08.rt", [p, n % 2], **tags))
+    # --- histories on one object: write -> change -> write ; parse -> write -> parse -> parse ---
+    def history(p):
+        nb = len(p[8])
+        top = max(m for _, m in p[8])
+        muts = []
+        for _ in range(rng.randint(1, 3)):
+            idx = rng.randrange(nb)
+            muts.append([idx, rng.choice([1, top, top + 1, max(1, top - p[8][idx][1]), 10 ** 20])])
+        add = []
+        if rng.random() < 0.5:
+            k = p[5]
+            ids = [a for a, _ in p[3]] or [1, 2]
+            for _ in range(5):
+                b = rand_ballot(rng, ids, k)
+                if b not in p[7]:
+                    add = [b, rng.choice([1, top, top + 3])]
+                    break
+        return muts, add
+    hist_src = [p for p, _ in insts if len(p[7]) >= 1 and len(p[7]) == len(p[8])]
+    nh = 350 if quick else 5000
+    for n in range(nh):
+        p = hist_src[rng.randrange(len(hist_src))] if n % 3 else rand_instance(rng)
+        muts, add = history(p)
+        out.append(case("c08.hist", [p, muts, add, n % 2]))
+    hand = corpus_like()
+    out.append(case("c08.hist", [hand[-2], [[1, 6]], [], 0]))            # the x2 twin overtakes the x7 one
+    out.append(case("c08.hist", [hand[-2], [[1, 5]], [[[1], [2, 3]], 7], 1]))
+    for n in range(150 if quick else 2500):
+        p = hist_src[rng.randrange(len(hist_src))] if n % 3 else rand_instance(rng)
+        out.append(case("c08.cycle", [p, n % 2]))
+    for p in hand:
+        out.append(case("c08.cycle", [p, 0]))
+        out.append(case("c08.cycle", [p, 1]))
     # --- tokenizer ---
     for s in tokenizer_strings(rng, 3000 if quick else 40000):
         out.append(case("c08.tokenize", T(s)))
